@@ -84,10 +84,10 @@ def hkind : HName → Option TKind
   | .s_text_p | .s_text_h | .s_text_list | .s_text_list_item | .s_table_table | .s_table_table_row
   | .s_table_table_cell | .s_table_table_column => some .purge
   | .s_text_span | .s_text_a | .s_text_bookmark_ref | .s_text_bookmark | .s_text_tab | .s_text_line_break
-  | .s_draw_frame | .s_text_s
+  | .s_draw_frame | .s_text_s | .s_custom_shape | .s_draw_shape
   | .e_text_p | .e_text_span | .e_text_a | .e_text_h | .e_text_list | .e_text_list_item | .e_table_table
   | .e_table_table_row | .e_table_table_cell => some .flush
-  | .e_draw_frame | .s_draw_textbox | .e_draw_textbox | .s_draw_page | .e_draw_page | .s_draw_image => some .keep
+  | .e_draw_frame | .e_custom_shape | .s_draw_textbox | .e_draw_textbox | .s_draw_page | .e_draw_page | .s_draw_image => some .keep
   | _ => none
 
 /-- effect of a handler of kind `k` on (written text, pending data); `X` = text the handler itself adds (page names) -/
@@ -134,6 +134,7 @@ theorem runH_te (cfg : Cfg) (ctx : Ctx) (h : HName) (q : Str) (a : Attrs) (pe pc
     pe1 = pe ∧ pc1 = pc ∧ TE k st st1 ∧ st1.notes = st.notes ∧ st1.saved = st.saved := by
   cases h <;> simp only [hkind] at hk <;> (try cases hk) <;> (try (cases hk; done))
   case e_draw_frame => obtain ⟨rfl, rfl, rfl⟩ := c_inv hr; te_done
+  case e_custom_shape => obtain ⟨rfl, rfl, rfl⟩ := c_inv hr; te_done
   case e_draw_page => obtain ⟨rfl, rfl, rfl⟩ := c_inv hr; te_done
   case e_draw_textbox => obtain ⟨rfl, rfl, rfl⟩ := c_inv hr; te_done
   case e_table_table => obtain ⟨rfl, rfl, rfl⟩ := wcp_inv hr; te_done
@@ -164,6 +165,10 @@ theorem runH_te (cfg : Cfg) (ctx : Ctx) (h : HName) (q : Str) (a : Attrs) (pe pc
   case s_draw_frame =>
     simp only [runH] at hr
     split at hr <;> (obtain ⟨rfl, rfl, rfl⟩ := ok3 hr; te_done)
+  case s_custom_shape =>
+    simp only [runH] at hr
+    split at hr <;> (obtain ⟨rfl, rfl, rfl⟩ := ok3 hr; te_done)
+  case s_draw_shape => obtain ⟨rfl, rfl, rfl⟩ := ok3 hr; te_done
   case s_draw_image =>
     simp only [runH] at hr
     split at hr
